@@ -92,6 +92,31 @@ def module_source():
             pass
         lines.append('')
         lines.append('')
+    # equations without sources: no initialize_pair / loop_all, and a loop
+    # that is called once per destination particle without any neighbour
+    nosrc_loop = '''
+    def loop(self, d_idx, d_tr):
+        d_tr[d_idx] = (d_tr[d_idx]*self.p + self.c + 6) % 1000003
+'''
+    for mask in range(128):
+        if mask & 0b0001100:
+            continue
+        hooks = [h for b, h in enumerate(HOOKS) if mask & (1 << b)]
+        lines.append('class TrN%03d(Equation):' % mask)
+        lines.append('    def __init__(self, dest, sources, p=3, c=1, '
+                     'nconv=0, move=0.0):')
+        lines.append('        self.p = p')
+        lines.append('        self.c = c')
+        lines.append('        self.nconv = nconv')
+        lines.append('        self.move = move')
+        lines.append('        self.calls = 0')
+        lines.append('        super(TrN%03d, self).__init__(dest, sources)'
+                     % mask)
+        for h in hooks:
+            lines.append((nosrc_loop if h == 'loop' else
+                          HOOK_SRC[h]).rstrip('\n'))
+        lines.append('')
+        lines.append('')
     lines.append('class Nop(Equation):')
     lines.append('    def initialize(self, d_idx, d_nopv):')
     lines.append('        d_nopv[d_idx] = 0.0')
@@ -231,7 +256,10 @@ def build_group(spec, log, tagp):
     else:
         members = []
         for e in spec['eqs']:
-            cls = getattr(mod, 'Tr%03d' % e['mask'])
+            if e['sources'] is None:
+                cls = getattr(mod, 'TrN%03d' % (e['mask'] & ~0b0001100))
+            else:
+                cls = getattr(mod, 'Tr%03d' % e['mask'])
             members.append(cls(dest=e['dest'], sources=e['sources'],
                                p=e['p'], c=e['c'], nconv=e['nconv'],
                                move=e['move']))
@@ -348,7 +376,13 @@ def programs(thorough, seed):
             for outer in (dict(), dict(pre=True, post=True),
                           dict(condition='t>0.5'), dict(update_nnps=True),
                           dict(iterate=True, min_iterations=2,
-                               max_iterations=3)):
+                               max_iterations=3),
+                          dict(condition='t>0.5', pre=True, post=True),
+                          dict(condition='never', post=True,
+                               update_nnps=True),
+                          dict(iterate=True, min_iterations=1,
+                               max_iterations=2, pre=True, post=True,
+                               update_nnps=True)):
                 parent = group_spec(subgroups=[s1, s2], **outer)
                 progs.append([parent, probe])
     return progs
@@ -400,8 +434,14 @@ def compare(progs, out):
     probs = []
     for ti, (rc, rr) in enumerate(zip(out['compiled'], out['reference'])):
         if len(rc) != len(rr):
-            probs.append((None, 'number of program boundaries %d vs %d' % (
-                len(rc), len(rr))))
+            exc = [st for (pj, st, lg) in rr if pj == -1]
+            if exc:
+                # the reference interpreter stopped in program len(rr)-1
+                probs.append((len(rr) - 1, 'call %d: reference interpreter '
+                              'raised %s' % (ti, exc[0].get('exception'))))
+            else:
+                probs.append((None, 'number of program boundaries %d vs %d'
+                              % (len(rc), len(rr))))
             continue
         for (pi, stc, logc), (pj, str_, logr) in zip(rc, rr):
             if stc != str_:
@@ -490,7 +530,7 @@ def run(ctx):
                     'three-equation group followed by a neighbour-dependent '
                     'probe group; two-group programs over all destination/'
                     'source wirings of 3 arrays; sub-groups with their own '
-                    'flags inside 5 kinds of parents; every program is '
+                    'flags inside 8 kinds of parents; every program is '
                     'evaluated twice (t=0 and t=1) by the compiled code and '
                     'by the reference interpreter on arrays with ghost '
                     'particles')
